@@ -161,6 +161,9 @@ class Program:
             pieces += recipes(i, gk[i]) if gk[i] != "none" else []
             if gk[i] == "sep" and not pieces:
                 pieces = [("T_WHITESPACE", b" ")]
+            # a comment directly after a "/" would fuse with it ("/" + "/* c */" is a line comment)
+            if pieces and i > 0 and self.toks[i - 1].text.endswith(b"/") and pieces[0][1].startswith(b"/"):
+                pieces.insert(0, ("T_WHITESPACE", b" "))
             # merge adjacent white space into one free-floating token
             ff = []
             for cls, text in pieces:
@@ -255,6 +258,9 @@ def fuses(x, y):
     cx, cy = x[-1:], y[:1]
     wx, wy = bool(WORD.match(cx)), bool(WORD.match(cy))
     if wx and wy:
+        # a decimal number directly followed by a word operator is two lexemes ("1and 2")
+        if re.fullmatch(rb"[1-9][0-9]*", x) and y.lower() in (b"and", b"or", b"xor", b"instanceof", b"as"):
+            return False
         return True
     if wx and not wy:
         return (cx in b"bB" and cy in b"'\"<") or (cx.isdigit() and cy == b".")
@@ -282,6 +288,7 @@ RECIPES = {
     "line": [("T_WHITESPACE", b" "), ("T_COMMENT", b"// c\n")],
     "hash_crlf": [("T_COMMENT", b"# c\r\n"), ("T_WHITESPACE", b"\t")],
     "empty_block": [("T_COMMENT", b"/**/")],
+    "cr": [("T_WHITESPACE", b"\r")],
     "mix": [("T_WHITESPACE", b"\n"), ("T_COMMENT", b"// x\n"), ("T_DOC_COMMENT", b"/** y */"), ("T_WHITESPACE", b" ")],
 }
 RECIPE_NAMES = list(RECIPES)
@@ -293,7 +300,7 @@ def layout_uniform(name):
 
 
 def layout_random(rng, names=None):
-    names = names or RECIPE_NAMES
+    names = names or [n for n in RECIPE_NAMES if n != "cr"]
     memo = {}
 
     def f(i, kind):
@@ -312,13 +319,13 @@ def layout_one_gap(gap, name):
 
 # ---------------------------------------------------------------------------- TLC drivers
 
-def generate(check, family, rootcat="top", rootmax=2, depth=3, num=2000, seed=1, allowed=None, exhaustive=False, timeout=1800):
+def generate(check, family, rootcat="top", rootmax=2, depth=3, num=2000, seed=1, allowed=None, exhaustive=False, timeout=1800, maxchoices=0):
     """Runs SyntaxGen.tla; returns (table, behaviours)."""
     al = "{" + ", ".join('"%s"' % a for a in (allowed or [])) + "}"
     mc = "---- MODULE MCSyntaxGen ----\nEXTENDS SyntaxGen\nASSUME ExportTable\nMCAllowed == %s\n====\n" % al
-    cfg = ("SPECIFICATION GSpec\nCONSTANTS RootCat = \"%s\" RootMax = %d Depth = %d Family = \"%s\" Random = %s\n"
+    cfg = ("SPECIFICATION GSpec\nCONSTANTS RootCat = \"%s\" RootMax = %d Depth = %d Family = \"%s\" Random = %s MaxChoices = %d\n"
            "CONSTANT Allowed <- MCAllowed\nINVARIANTS Terminates NoDeadEnd\nCHECK_DEADLOCK FALSE\n"
-           % (rootcat, rootmax, depth, family, "FALSE" if exhaustive else "TRUE"))
+           % (rootcat, rootmax, depth, family, "FALSE" if exhaustive else "TRUE", maxchoices))
     if exhaustive:
         r = core.tlc("MCSyntaxGen", cfg, files={"MCSyntaxGen.tla": mc}, timeout=timeout, heap="12g")
     else:
